@@ -621,7 +621,7 @@ class World:
                 cargs.append(a)
             else:
                 cargs.append(eng.coerce(a, pt, node))
-        if sf.abstract or sf.recursive:
+        if sf.abstract or sf.recursive or sf.name in getattr(self, 'current_opaque', ()):
             decl = sf.declare()
             return V(sf.ret, decl(*[a.term for a in cargs]))
         return self.eval_spec_body(sf, cargs, eng)
@@ -710,7 +710,7 @@ class World:
                     new.append(self.lex_axiom(app))
                 else:
                     sf = by_name[nm]
-                    if sf.abstract:
+                    if sf.abstract or sf.name in getattr(self, 'current_opaque', ()):
                         continue
                     new.append(self.unfold(sf, app))
             if not new:
